@@ -21,6 +21,12 @@ def sumLoop (v : Tab α n) : α := v.foldl Scalar.add Scalar.zero
 def reduce (f : α → α → α) (v : Tab α n) (dflt : α) : α :=
   if h : 0 < n then (v.toList.tail).foldl f (v[0]'h) else dflt
 
+/-- `iter.reduce(f).unwrap_or(dflt)` over a list (used where the Rust iterator is filtered first) -/
+def reduceL (f : α → α → α) (l : List α) (dflt : α) : α :=
+  match l with
+  | [] => dflt
+  | x :: xs => xs.foldl f x
+
 def nanOf (α : Type) [Scalar α] : α := Scalar.div (Scalar.zero : α) Scalar.zero
 
 def reduceMin (v : Tab α n) : α := reduce Scalar.min v (nanOf α)
